@@ -7,6 +7,10 @@ from checks_table import PROPS
 all_ids = [json.loads(l)["id"] for l in open(os.path.join(ROOT, "properties.jsonl"))]
 hooks = subprocess.run(["git", "-C", "/repo", "log", "--format=%H %s"], stdout=subprocess.PIPE, text=True).stdout.splitlines()
 hook_commits = [l.split()[0] for l in hooks if l.split(" ", 1)[1].startswith("verif:")]
+LEVEL_TEXT = {
+ "exploration": "Generated-input search against an explicit oracle (%s). It shows the property on every case explored (counts, class distribution and samples are in the evidence file) and has been shown to detect seeded realistic breakages (seeded/README.md); it proves nothing about cases it did not generate. That is the right level here because the property quantifies over unbounded histories/inputs/configurations and the oracle is executable but the state space is not enumerable.",
+ "fault_enumeration": "For every generated workload the fault space named by the property (crash points and torn prefixes / power-loss images / failing writes and syncs / single-bit flips and truncations) is enumerated exhaustively from the recorded file-mutation trace or the stored image, and each point is judged by an explicit oracle (%s). Exhaustive per workload, sampled across workloads: it cannot miss a fault point of a workload it generated, and proves nothing about workloads it did not generate.",
+}
 checks = []
 for pid in all_ids:
     if pid not in PROPS:
@@ -19,7 +23,7 @@ for pid in all_ids:
         evidence_file="/verif/evidence/%s.json" % pid,
         replay_cmd_template="./check %s --replay {path}" % pid,
         engine=c.get("engine", "E1"),
-        level_claimed=dict(category=c["level"], text=c.get("level_text", ""), design_ref=c.get("design_ref", "DESIGN.md section 5, " + pid)),
+        level_claimed=dict(category=c["level"], text=c.get("level_text") or (LEVEL_TEXT[c["level"]] % c.get("technique", "reference model / metamorphic / differential relation")), design_ref=c.get("design_ref", "DESIGN.md section 5, " + pid)),
         level_note=c.get("level_note", "; ".join(c.get("assumptions", []))),
         technique=c.get("technique", "property-based testing (rapid), model-based"),
     ))
